@@ -120,6 +120,22 @@ func c07bindings() []c07binding {
 	bad("{integer: 1.5}", func() interface{} { return map[string]interface{}{"integer": 1.5} })
 	bad("{duration: 1.5}", func() interface{} { return map[string]interface{}{"duration": 1.5} })
 	bad("{string: {nested}}", func() interface{} { return map[string]interface{}{"string": map[string]interface{}{"a": "b"}} })
+	// an object whose entry is itself a well-formed object of a fitting kind: still not a value
+	for _, outer := range []string{"string", "identifier", "regex", "duration", "integer", "float", "number"} {
+		outer := outer
+		for _, inner := range []struct {
+			k string
+			v interface{}
+		}{{"string", "cpu"}, {"integer", int64(10)}, {"float", 1.5}, {"string", "1h"}} {
+			inner := inner
+			bad(fmt.Sprintf("{%s: {%s: %v}}", outer, inner.k, inner.v), func() interface{} {
+				return map[string]interface{}{outer: map[string]interface{}{inner.k: inner.v}}
+			})
+		}
+	}
+	bad("{string: {string: {string: deep}}}", func() interface{} {
+		return map[string]interface{}{"string": map[string]interface{}{"string": map[string]interface{}{"string": "deep"}}}
+	})
 	bad("<unbound>", nil)
 	return out
 }
@@ -147,7 +163,10 @@ func c07body(c *xplore.Ctx) (text string, form string, fs []ev.Finding, skipped 
 		}
 		name := fmt.Sprintf("p%d", len(subs)+1)
 		if len(subs) == 0 {
-			switch c.ChooseC(gram.CSpell, 3) {
+			switch c.ChooseC(gram.CSpell, 4) {
+			case 3:
+				name = "$p9" // a name that itself starts with the marker: $"$p9" is looked up as `$p9`, not as `p9`
+				quotedName = true
 			case 1:
 				name = "p q"
 				quotedName = true
